@@ -23,11 +23,11 @@ PrunePlans == {[skeleton |-> s, strict |-> b, plant |-> P] : s \in Skeletons, b 
 
 Elems == {"creator", "metadataProvider", "contact", "associatedParty"}
 Family(e) == IF e = "associatedParty" THEN "withRole" ELSE "plain"
-Items == [el : Elems, kind : {"def"}, tgt : {0}] \cup [el : Elems, kind : {"ref"}, tgt : 1..MaxItems]
+Items == [el : Elems, kind : {"def", "def0"}, tgt : {0}] \cup [el : Elems, kind : {"ref"}, tgt : 1..MaxItems]     \* def0: a definition without children
 WellFormed(p) == \A i \in 1..Len(p) : p[i].kind = "ref" =>
-                    /\ p[i].tgt \in 1..Len(p) /\ p[i].tgt # i /\ p[p[i].tgt].kind = "def"
+                    /\ p[i].tgt \in 1..Len(p) /\ p[i].tgt # i /\ p[p[i].tgt].kind \in {"def", "def0"}
                     /\ Family(p[p[i].tgt].el) = Family(p[i].el)
-Defs(p) == {k \in 1..Len(p) : p[k].kind = "def"}
+Defs(p) == {k \in 1..Len(p) : p[k].kind \in {"def", "def0"}}
 Faults(p) == {<<"none", 0, 0>>} \cup {<<"dangling", k, 0>> : k \in {i \in 1..Len(p) : p[i].kind = "ref"}}
              \cup {<<"duplicate-id", q[1], q[2]>> : q \in {r \in Defs(p) \X Defs(p) : r[1] < r[2]}}
              \cup {<<"duplicate-id-nested", i, 0>> : i \in Defs(p)}        \* the id again on a descendant of its holder
